@@ -56,8 +56,8 @@ def observe(run, names):
 def run_case(prog):
     r = Result()
     flat = flatten(prog)
-    rn = sched.run_program(prog, "do")
-    rf = sched.run_program(flat, "do")
+    rn = sched.run_program(prog, prog.get("mode") or "do")
+    rf = sched.run_program(flat, prog.get("mode") or "do")
     on = observe(rn, leaf_names(prog["doers"]))
     of = observe(rf, leaf_names(flat["doers"]))
     if "Runaway" in (rn.exc, rf.exc):
@@ -88,6 +88,7 @@ def run_case(prog):
         r.labels.append("forced-exits")
     if prog.get("limit") is not None:
         r.labels.append("limit")
+    r.labels.append("mode:" + (prog.get("mode") or "do"))
     return r
 
 
